@@ -30,6 +30,16 @@ pub fn budget(tier: Tier, scale: f64) -> Budget {
     }
 }
 
+/// enumerated cases are distinct by construction: count non-trivial ones instead of hashing them
+fn counted(oracle: InputOracle, input: &str, ext: usize, conv: u8, st: &mut Stats) -> Verdict {
+    let mut s2 = Stats::default();
+    let r = oracle(input, ext, conv, &mut s2);
+    st.nontrivial_counted += s2.nontrivial.len().min(1) as u64;
+    s2.nontrivial.clear();
+    st.merge(s2);
+    r
+}
+
 pub fn replay_input(j: &serde_json::Value, oracle: InputOracle) -> Verdict {
     let c: InputCase = case_from(j)?;
     oracle(&c.input(), c.ext, c.conv, &mut Stats::default())
@@ -64,7 +74,7 @@ pub fn run_inputs(run: &mut Run, b: &Budget, nontrivial_rule: &str, oracle: Inpu
             if i % 500_009 == 0 {
                 st.sample(|| c.describe());
             }
-            oracle(&input, c.ext, c.conv, st)
+            counted(oracle, &input, c.ext, c.conv, st)
         },
     );
     if run.failed() {
@@ -95,7 +105,7 @@ pub fn run_inputs(run: &mut Run, b: &Budget, nontrivial_rule: &str, oracle: Inpu
             if i % 100_003 == 0 {
                 st.sample(|| c.describe());
             }
-            oracle(&c.input(), c.ext, c.conv, st)
+            counted(oracle, &c.input(), c.ext, c.conv, st)
         },
     );
     if run.failed() {
@@ -124,7 +134,7 @@ pub fn run_inputs(run: &mut Run, b: &Budget, nontrivial_rule: &str, oracle: Inpu
             if i % 300_007 == 0 {
                 st.sample(|| c.describe());
             }
-            oracle(&c.input(), c.ext, c.conv, st)
+            counted(oracle, &c.input(), c.ext, c.conv, st)
         },
     );
     if run.failed() {
